@@ -242,7 +242,43 @@ def rule_column(ck):
         ck.violation("reports::BareHandler.__call__", "the bare report format does not print the start position of the span", construct="BareHandler position")
 
 
+def rule_hoist_spans(ck):
+    """nodes rebuilt while compiling (hoisting 'a+b(r)') keep the spans of the text they stand for"""
+    from . import c01
+    saved = lambda x: sym.op("call", sym.op("attr", x, "save"))
+    where = "insns::RegisterModeOperandStub.encode.hoist" if ck.repo.has_func("insns::RegisterModeOperandStub.encode.hoist") else "insns::RegisterModeOperandStub.encode"
+    for text, want, mode, last, paths, toks in c01.hoist_cases(ck.repo):
+        if text in ("a(R)",):
+            continue
+        rets = [p for p in paths if p.kind == "return"]
+        if len(rets) != 1:
+            continue
+        (m, ext), seen = rets[0].value
+        if not seen:
+            ck.unknown(f"hoist {text}: the index value is not read through get_as_int")
+            continue
+        outer, inner = seen[0][0], seen[0][1]
+        orig = toks["operand"]
+        start_tok = orig.fields["operand"] if text.startswith("@") else orig     # '@' stays outside the index expression
+        ck.instance(("hoist-span", text), {"operand": text, "index expression span": [repr(inner.fields.get("ctx_start")), repr(inner.fields.get("ctx_end"))]}, fn=where)
+        def unsave(x):
+            # Context.save() of a snapshot is the same position
+            while sym.is_sym(x) and x[:2] == ("op", "call") and sym.is_sym(x[2]) and x[2][:2] == ("op", "attr") and x[2][3] == "save" and len(x) == 3:
+                x = x[2][2]
+            return x
+        exp_start = start_tok.fields["ctx_start"]
+        exp_end = toks[last].fields["ctx_end"]
+        got_start, got_end = unsave(inner.fields.get("ctx_start")), unsave(inner.fields.get("ctx_end"))
+        if got_start != exp_start or got_end != exp_end:
+            ck.violation(where, f"operand '{text}': the rebuilt index expression spans ({got_start!r}, {got_end!r}); the text it stands for starts at {exp_start!r} and ends at {exp_end!r}: "
+                                "a diagnostic on the index (e.g. 'does not fit in 16 bits') points at the wrong column", construct="hoisted index expression span")
+        o_start, o_end = unsave(outer.fields.get("ctx_start")), unsave(outer.fields.get("ctx_end"))
+        if o_start != orig.fields["ctx_start"] or o_end != orig.fields["ctx_end"]:
+            ck.violation(where, f"operand '{text}': the rebuilt operand node spans ({o_start!r}, {o_end!r}), not the operand's own text", construct="hoisted operand span")
+
+
 def run(ck):
+    ck.run_rule("C17.hoist", "nodes rebuilt by hoisting keep the spans of the text they stand for", 6, rule_hoist_spans)
     ck.run_rule("G9", "report spans: one token, or ordered and equally fresh snapshots", 120, rule_G9)
     ck.run_rule("C17.tok", "tokens store snapshots; contexts are per file", 3, rule_token)
     ck.run_rule("C17.col", "line:column formula and its sibling in the graphical renderer", 3, rule_column)
